@@ -45,6 +45,83 @@ MTIMES = [0, 1, 1432310400, 2 ** 31 + 5, 2 ** 33, -1]
 COMPOSE_TYPES_SUFFIX = {"production": "", "nightly": ".n", "test": ".t", "ci": ".ci", "development": ".d"}
 
 
+# ---- wide pools (docs/GENERATOR_AUDIT.md): legal values the narrow pools never produce; used with wide=True only, so that
+# checks that have not been audited for them keep their behaviour
+LONG = "L" * 310
+W_PATH_STEMS = [" ", " lead", "trail ", "in ner", "\t", u"\u00a0", "a-b.c:d@e,f;g=h#i%j[k]l\"m'n\\o", "%%", "//x", "x/", "./x", "../x", "x/../x",
+                "Server/x86_64/Server/x86_64", "None", "null", "0", "False", "1.0", u"\u0663", u"\uff17", LONG, "iso", "ISO", "Iso"]
+W_VOLUME_IDS = ["-", ".", ":", "a=b", "#c", "%s", "[x]", "\"q\"", "'q'", "\\", "%%", "\t", u"\u00a0", " lead", "trail ", "None", "null", "0", "False", "1.0",
+                u"\u0663\uff17", u"\U0001F4BF", LONG]
+W_SUBVARIANTS = [" ", "kde", "Kde", "KDE ", "K-D.E", "a:b/c@d", "None", "0", "False", u"\u0663", u"\U0001F4BF", LONG, "\t", u"\u00a0"]
+W_VARIANTS = ["server", "SERVER", "", " ", "A.B", "a/b", "a:b", u"Sérv", u"\U0001F4BF", "None", "0", "Server-Server", LONG, "src", "x86_64"]
+W_INTS = [0, 1, -1, 2 ** 31, 2 ** 32 + 7, 2 ** 53 + 1, 2 ** 63 - 1, 2 ** 63, 10 ** 7, 10 ** 8, 10 ** 7 - 1, 10 ** 8 + 1, 10, 3, -2 ** 40]
+W_ARCH_ATTR = ["ppc", "ppc64", "ppc64le", "nosrc", "foo", "X86_64", " ", u"\u0663", "x86_64 ", "None", LONG]
+W_ADDITIONAL = [[""], ["B", "A"], ["A", "A"], [" "], ["a-b", "a.b"], [u"\u0663"], [LONG], ["Server", "server"], [1, None, True], [["nested"], {"k": "v"}],
+                ["None"], ["A", "B", "C", "D", "E", "F", "G", "H"]]
+W_CHECKSUMS = [{"md5": "x", "MD5": "y"}, {"SHA256": "AbC"}, {"": ""}, {"sha256": ""}, {"md5": None}, {"md5": 1, "sha1": True, "sha256": False},
+               {"md5": ["l"], "x": {"n": "d"}}, {"a-b.c:d": "v"}, {u"\u0663": u"\uff17"}, {"z": "1", "a": "2", "M": "3"}, {"md5": LONG},
+               {"sha256": {"$float": "0.5"}}, {"md5": "None", "sha1": "0"}, {"md5": " "}]
+W_IMPLANT = ["z" * 32, "0" * 32, "a1" * 16 + "\n", "0123456789abcdefghijklmnopqrstuv"]
+W_VERSIONS = ["1.10", "01.1", "1.2\n", "10.0", "0.3", "0.11", "1.01"]
+PREFIX_ARCHES = ["ppc", "ppc64", "ppc64le", "ppc64iseries", "ppc64pseries", "ppc64p7", "sparc", "sparc64", "sparc64v", "sparcv9", "sparcv9v",
+                 "arm64", "armv7hl", "armv7hnl", "i386", "i686", "s390", "s390x", "mips", "mips64", "mips64el", "mipsel", "noarch"]
+_RR = {"n": 0}
+
+
+def rr(pool):
+    """round-robin over a pool across the whole run (every value is used, not sampled)"""
+    _RR["n"] += 1
+    return pool[_RR["n"] % len(pool)]
+
+
+def widen_image(rng, img, t):
+    """replace some attributes of a (valid) image by legal values of the wide pools; one or two attributes per image,
+    chosen round-robin so that every class is produced in every run"""
+    for _ in range(rng.choice([1, 1, 2])):
+        k = rr(["path", "volume_id", "subvariant", "mtime", "size", "disc", "arch", "typeformat", "checksums", "implant_md5", "additional", "unified_empty"])
+        if k == "path":
+            img["path"] = "%s/%s" % (rr(W_PATH_STEMS), img["path"]) if rng.random() < 0.5 else "%s%s" % (img["path"], rr(W_PATH_STEMS))
+        elif k == "volume_id":
+            img["volume_id"] = rr(W_VOLUME_IDS)
+        elif k == "subvariant":
+            img["subvariant"] = rr(W_SUBVARIANTS)
+        elif k == "mtime":
+            img["mtime"] = rr(W_INTS)
+        elif k == "size":
+            img["size"] = rr([x for x in W_INTS if x != 0])
+        elif k == "disc":                                     # decoupled: count below number, 1 of 3, zero, negative
+            img["disc_number"], img["disc_count"] = rr([(1, 3), (3, 1), (0, 0), (10, 12), (-1, 1), (2, 2), (10 ** 7, 1), (1, 0), (2 ** 53 + 1, 2 ** 63 - 1), (2 ** 64 + 3, 2 ** 53 + 1), (1, 2 ** 60 + 1)])
+        elif k == "arch":
+            img["arch"] = rr(W_ARCH_ATTR)
+        elif k == "typeformat":                                # type and format are validated independently: decouple them
+            img["type"] = rr([x[0] for x in t["tf"]]); img["format"] = rr(sorted(set(x[1] for x in t["tf"])))
+        elif k == "checksums":
+            img["checksums"] = copy.deepcopy(rr(W_CHECKSUMS))
+        elif k == "implant_md5":
+            img["implant_md5"] = rr(W_IMPLANT)
+        elif k == "additional":
+            img["unified"] = True; img["additional_variants"] = copy.deepcopy(rr(W_ADDITIONAL))
+        elif k == "unified_empty":
+            img["unified"] = True; img["additional_variants"] = []
+    return img
+
+
+def widen_compose(rng, c):
+    k = rr(["id", "respin", "date", "decouple", "label", "none"])
+    if k == "id":
+        c["id"] = rr([u"Fédora 22-%s" % c["date"], " %s " % c["date"], "x" + c["date"] + ".n.0.extra", LONG + c["date"], c["date"], u"\u0663%s" % c["date"],
+                      "a-b.c:d@" + c["date"], u"F-\uff12\uff10\uff11\uff15\uff10\uff15\uff12\uff12"])
+    elif k == "respin":
+        c["respin"] = rr([10, 2 ** 53 + 1, -1, 10 ** 7, 10 ** 8, 2 ** 63 - 1])
+    elif k == "date":
+        c["date"] = rr([u"\uff12\uff10\uff11\uff15\uff10\uff15\uff12\uff12", "00000000", "99999999", "20150522\n"])
+    elif k == "decouple":                                      # type field vs id suffix are independent
+        c["type"] = rr(["production", "nightly", "test", "ci", "development"])
+    elif k == "label":
+        c["label"] = rr(["RC-10.10", "EA-0.0", "SecurityFix-1.0", u"Update-\uff11.\uff12", "Beta-1.2\n"]); c["final"] = rr([True, False])
+    return c
+
+
 def lib():
     checklib.use_repo()
     import productmd.images, productmd.common, productmd.composeinfo
@@ -153,14 +230,20 @@ def make_unique(pool):
     return pool
 
 
-def gen(rng, tier="quick", version=None, unique=True, max_variants=3, max_arches=3, max_cell=6, share=True, k0=None):
-    """a mostly-valid manifest per the quantifier of C02"""
+def gen(rng, tier="quick", version=None, unique=True, max_variants=3, max_arches=3, max_cell=6, share=True, k0=None, wide=False):
+    """a mostly-valid manifest per the quantifier of C02; wide=True: also the legal values of the wide pools
+    (generator audit): odd variant keys, arch keys that are prefixes of each other, decoupled attributes, …"""
     t = tables()
     k = rng.randrange(len(t["tf"])) if k0 is None else k0
     pool, adds = [], []
     variants = rng.sample(VARIANTS, rng.randint(1, max_variants))
+    if wide and rng.random() < 0.5:
+        variants = list(dict.fromkeys(variants + [rr(W_VARIANTS), rr(W_VARIANTS)]))
     for v in variants:
         arches = rng.sample(t["arches"], rng.randint(1, max_arches))
+        if wide and rng.random() < 0.3:
+            i = _RR["n"] % (len(PREFIX_ARCHES) - 2); _RR["n"] += 1
+            arches = PREFIX_ARCHES[i:i + 3]                     # table entries that are prefixes / extensions of each other, and the last one
         if rng.random() < 0.5:
             arches[0] = rng.choice(["x86_64", "i386", "ppc64le", "noarch", "aarch64"])
         for a in dict.fromkeys(arches):
@@ -168,6 +251,8 @@ def gen(rng, tier="quick", version=None, unique=True, max_variants=3, max_arches
             stems = list(PATH_STEMS); rng.shuffle(stems)
             for j in range(n):
                 pool.append(gen_image(rng, k, v, a, t, stem=stems[j % len(stems)])); k += 1
+                if wide and rng.random() < 0.5:
+                    widen_image(rng, pool[-1], t)
                 adds.append([v, a, len(pool) - 1])
     if pool and rng.random() < 0.35:
         # the same content under another path: equal identity AND equal checksums is allowed
@@ -189,14 +274,36 @@ def gen(rng, tier="quick", version=None, unique=True, max_variants=3, max_arches
     rng.shuffle(adds)
     if version is None:
         version = rng.choice(["0.0", "0.0", "1.2", "1.1", "1.0", "2.0"])
-    return {"version": version, "compose": gen_compose(rng, t), "pool": pool, "adds": adds}
+        if wide and rng.random() < 0.15:
+            version = rr(W_VERSIONS)
+    comp = gen_compose(rng, t)
+    if wide and rng.random() < 0.4:
+        widen_compose(rng, comp)
+    if wide:
+        # distinct paths inside every cell (the quantifier's condition) also after widening
+        seen = {}
+        for v, a, idx in adds:
+            key = (v, a, pool[idx]["path"])
+            if seen.setdefault(key, idx) != idx:
+                pool[idx]["path"] += ".%d" % idx
+    return {"version": version, "compose": comp, "pool": pool, "adds": adds}
 
 
 # ------------------------------------------------------------------------------------------------ real side
-def new_image(im, parent, attrs):
+def new_image(im, parent, attrs, style="assign"):
+    """style "assign": every attribute assigned (fresh containers); "inplace": the default containers of the new object are
+    filled in place (add_checksum, additional_variants.append) - same attributes, other construction"""
     obj = im.Image(parent)
     for f, val in attrs.items():
-        setattr(obj, f, dec(copy.deepcopy(val)))          # spec values are in protocol encoding ($float / $other markers)
+        val = dec(copy.deepcopy(val))                     # spec values are in protocol encoding ($float / $other markers)
+        if style == "inplace" and f == "checksums" and isinstance(val, dict):
+            for k, x in val.items():
+                obj.add_checksum(None, k, x)
+        elif style == "inplace" and f == "additional_variants" and isinstance(val, list):
+            for x in val:
+                obj.additional_variants.append(x)
+        else:
+            setattr(obj, f, val)
     return obj
 
 
@@ -208,7 +315,8 @@ def build(spec, strict=True):
         m.header.version = spec["version"]
     for f, val in spec.get("compose", {}).items():
         setattr(m.compose, f, copy.deepcopy(val))
-    objs = [new_image(im, m, attrs) for attrs in spec["pool"]]
+    styles = spec.get("styles") or []
+    objs = [new_image(im, m, attrs, styles[i] if i < len(styles) else "assign") for i, attrs in enumerate(spec["pool"])]
     for v, a, idx in spec["adds"]:
         try:
             m.add(v, a, objs[idx])
@@ -326,7 +434,7 @@ def expected_snapshot(spec, keep_empty=False):
     if not keep_empty:
         cells = dict((v, dict((a, c) for a, c in d.items() if c)) for v, d in cells.items())
         cells = dict((v, d) for v, d in cells.items() if d)
-    return dict((v, dict((a, sorted((copy.deepcopy(spec["pool"][i]) for i in c), key=rec_key)) for a, c in d.items())) for v, d in cells.items())
+    return dict((v, dict((a, sorted((dec(copy.deepcopy(spec["pool"][i])) for i in c), key=rec_key)) for a, c in d.items())) for v, d in cells.items())
 
 
 def model_state(spec, version=None):
@@ -393,6 +501,22 @@ def doc_records(doc):
     for v, d in doc["payload"]["images"].items():
         for a, cell in d.items():
             for r in cell:
-                r = dict(r); r.setdefault("format", "iso"); r.setdefault("subvariant", "")
-                out.append(r)
+                out.append(read_record(r))
     return out
+
+
+def read_record(r):
+    """what the reader makes of an image dictionary, written out on the spec side: documented defaults (format iso,
+    subvariant "", unified False, additional_variants []), int() of the four integer attributes, bool() of bootable"""
+    r = dict(r)
+    r.setdefault("format", "iso"); r.setdefault("subvariant", ""); r.setdefault("unified", False); r.setdefault("additional_variants", [])
+    for f in INT_FIELDS:
+        if isinstance(r.get(f), (int, float, str)) and not isinstance(r.get(f), bool):
+            try:
+                r[f] = int(r[f])
+            except ValueError:
+                pass
+        elif isinstance(r.get(f), bool):
+            r[f] = int(r[f])
+    r["bootable"] = bool(r.get("bootable"))
+    return r
